@@ -1,7 +1,7 @@
 """C14 -- rejection and error location (DESIGN 5.14)."""
 import json
 from framework import *
-import svx_grammar, snippets, svtree
+import svx_grammar, snippets, svtree, lexcheck
 
 PARTIAL = ("proved over the regenerated grammar: a byte that no primitive consumes is a barrier for every expression "
            "(C14_barrier) and strict source_text / library_text, which end in many_till(description, eof), never succeed "
@@ -74,6 +74,8 @@ def check(ctx):
         ctx.obl("regenerated:grammar (strict start symbols end with many_till(.., eof))", "regenerated", False, "translator failed: %r" % (e,))
     prove(ctx, "C14")
     build_impl(ctx)
+    lexcheck.obligation(ctx, "C14", {"stop", "pos"})
+    lexcheck.correspond(ctx)
     r = ctx.rng
     q = ctx.quick()
     deep = any(not o.ok for o in ctx.obls)
@@ -222,6 +224,22 @@ def check(ctx):
                     cc.add("file", hx("inc.svh"), hx(inc))
                     cc.add("run", "parse_sv_str", hx("/* top */\n`include \"inc.svh\"\n"), hx("top.sv"))
                     meta[cc.id] = ("stop", "sv", "---- inc.svh ----\n" + inc, len(d.encode()), "inc.svh", inc)
+                cases.append(cc)
+    # 1d. two levels of include: top includes mid, mid includes leaf, the fault stands in mid behind its `include line; every
+    # length of leaf (the origin entries of leaf and of the rest of mid touch, with whatever source offsets they happen to have)
+    for pre in (("", "/* 7b */\n") if q and not deep else ("", "/* 7b */\n", "wire before_the_include;\n", "// c\n// d\n")):
+        inc_line = pre + "`include \"leaf.svh\"\n"
+        for L in range(7, len(inc_line.encode()) + (24 if q and not deep else 60)):
+            leaf = "wire " + "x" * (L - 6) + ";"
+            stop = r.choice(STOP)
+            for tail_nl in (("",) if q and not deep else ("", "\n")):
+                mid_pre = inc_line + "wire m1;\n"
+                mid = mid_pre + stop + "wire m2;\n"
+                cc = Case("m%d" % n); n += 1
+                cc.add("want", "tree").add("file", hx("leaf.svh"), hx(leaf + tail_nl)).add("file", hx("mid.svh"), hx(mid))
+                top = "module m;\n`include \"mid.svh\"\nendmodule\n"
+                cc.add("run", "parse_sv_str", hx(top), hx("top.sv"))
+                meta[cc.id] = ("stop", "sv", top + "\n---- mid.svh ----\n" + mid + "\n---- leaf.svh ----\n" + leaf + tail_nl, len(mid_pre.encode()), "mid.svh", top)
                 cases.append(cc)
     # 2. preprocessor-level lexical faults
     for t, fault in [("a \"unterminated\n", 2), ("x /* open\n", 2), ("y \\ z\n", 2), ("module m; \"s\" wire \"q\n", 19), ("ok\n`include \"i.svh\"\n", None)]:
